@@ -204,7 +204,8 @@ fn batch(args: &Args) -> i32 {
     } else {
         None
     };
-    for i in from..to {
+    let order: Vec<u64> = if args.u64("reverse", 0) == 1 { (from..to).rev().collect() } else { (from..to).collect() };
+    for i in order {
         let _ = cur.seek(SeekFrom::Start(0));
         let _ = cur.write_all(format!("{:>20}\n", i).as_bytes());
         let run_seed = rng::derive_n(seed, &engine, i);
